@@ -76,6 +76,9 @@ class Contract:
 
 class ContractSet(dict):
     def add(self, c: Contract):
+        old = self.get(c.qual)
+        if old is not None and hasattr(old, "model") and not hasattr(c, "model"):
+            raise RuntimeError(f"contract {type(c).__name__} for {c.qual} would hide the caller-side model of {type(old).__name__}: subclass it")
         self[c.qual] = c
         return c
 
